@@ -1,7 +1,7 @@
 (* New and Of build exactly one fresh cycle; then the refinement theorem over histories. *)
 From Coq Require Import ZArith List Bool Arith Lia Permutation.
 Import ListNotations.
-From Mds Require Import Gen.RingIdx Ring.RingModel Ring.RingSpec Ring.RingProofsBase Ring.RingProofsRep Ring.RingProofsObs Ring.RingProofsOps.
+From Mds Require Import Gen.RingIdx Ring.RingBase Ring.RingPlain Ring.RingSpec Ring.RingProofsBase Ring.RingProofsRep Ring.RingProofsObs Ring.RingProofsOps.
 
 Section NewSec.
 Variable T : Type.
